@@ -144,7 +144,7 @@ theorem advance_ginv (n : Nat) : ∀ {s : S}, Inv s → GInv s → GInv (s.advan
 
 /-! ### events -/
 
-theorem startCloser_ginv {s : S} (hc : s.closing = false) (j d pdl : Nat) (im : Bool) :
+theorem startCloser_ginv {s : S} (_hc : s.closing = false) (j d pdl : Nat) (im : Bool) :
     GInv (s.startCloser j d pdl im) := by
   unfold S.startCloser
   cases im with
